@@ -368,7 +368,7 @@ func genPoolSrc(repo string) (string, error) {
 // atomic.AddUint64 with a cast (one atomic step), or add-then-reset in two atomic steps, or unknown.
 func genXConnSrc(repo string) (string, error) {
 	var b strings.Builder
-	b.WriteString("From Coq Require Import NArith.\nFrom MV Require Import Model.XConn Model.XAlloc.\nOpen Scope N_scope.\n")
+	b.WriteString("From Coq Require Import NArith.\nFrom MV Require Import Model.XConn Model.XAlloc Model.XReply.\nOpen Scope N_scope.\n")
 	ok := true
 	for _, p := range []struct{ name, dir, recv string }{
 		{"bolt", "bolt", "boltProtocol"}, {"boltv2", "boltv2", "boltv2Protocol"}, {"tars", "tars", "tarsProtocol"},
@@ -407,6 +407,61 @@ func genXConnSrc(repo string) (string, error) {
 			prog = "AddThenReset 0"
 		}
 		fmt.Fprintf(&b, "Definition xsrc_%s : alloc_prog := %s.\n", p.name, prog)
+	}
+	// where the server stream stamps its own id on the frame it writes (pkg/stream/xprotocol/stream.go)
+	{
+		fset, f, err := ParseGoFile(repo, "pkg/stream/xprotocol/stream.go")
+		if err != nil {
+			return "", err
+		}
+		rs := ""
+		if fd := FindFunc(f, "xStream", "endStream"); fd != nil && strings.Contains(exprStr(fset, fd.Body), "s.frame.SetRequestId(s.id)") {
+			rs = "RestampEnd"
+		} else if fd := FindFunc(f, "xStream", "AppendHeaders"); fd != nil {
+			// stamped in AppendHeaders: only in the branch that does not go through buildHijackResp?
+			ast.Inspect(fd.Body, func(x ast.Node) bool {
+				is, isIf := x.(*ast.IfStmt)
+				if !isIf || !strings.Contains(exprStr(fset, is.Body), "buildHijackResp") || is.Else == nil {
+					return true
+				}
+				if strings.Contains(exprStr(fset, is.Else), "SetRequestId(s.id)") && !strings.Contains(exprStr(fset, is.Body), "SetRequestId(s.id)") {
+					rs = "RestampNonHijack"
+				}
+				return true
+			})
+		}
+		if rs == "" {
+			ok = false
+			b.WriteString("(* stream.go: the place where the server stream stamps its id was not recognised *)\n")
+			rs = "RestampNonHijack"
+		}
+		fmt.Fprintf(&b, "Definition xsrc_restamp : restamp := %s.\n", rs)
+	}
+	// which id the codec's Hijack puts into the reply
+	for _, p := range []struct{ name, dir, recv string }{
+		{"bolt", "bolt", "boltProtocol"}, {"boltv2", "boltv2", "boltv2Protocol"}, {"tars", "tars", "tarsProtocol"}, {"dubbo", "dubbo", "dubboProtocol"}} {
+		fset, f, err := ParseGoFile(repo, "pkg/protocol/xprotocol/"+p.dir+"/protocol.go")
+		if err != nil {
+			return "", err
+		}
+		hj := ""
+		if fd := FindFunc(f, p.recv, "Hijack"); fd != nil {
+			txt := exprStr(fset, fd.Body)
+			switch {
+			case len(fd.Body.List) == 1 && exprStr(fset, fd.Body.List[0]) == "returnnil":
+				hj = "HjNone"
+			case strings.Contains(txt, "request.GetRequestId()"):
+				hj = "HjCopy"
+			case strings.Contains(txt, "RequestId:0,"):
+				hj = "HjZero"
+			}
+		}
+		if hj == "" {
+			ok = false
+			fmt.Fprintf(&b, "(* %s: Hijack has a shape the translator does not know *)\n", p.name)
+			hj = "HjCopy"
+		}
+		fmt.Fprintf(&b, "Definition xsrc_hijack_%s : hijack_id := %s.\n", p.name, hj)
 	}
 	fmt.Fprintf(&b, "Definition XConnSrc_translator_ok := %v.\n", ok)
 	return b.String(), nil
